@@ -278,6 +278,22 @@ func (c *Compiler) compileDeclValue(node *parser.GenDecl) error {
 	if node.Tok == token.Const {
 		isConst = true
 		defer func() { c.iotaVal = -1 }()
+		// An expression of the group that is repeated implicitly is compiled
+		// once per member, each time in the scope of the members before it.
+		// Folding constants into it rewrites the expression in place, later
+		// members would see the names as they were resolved for the first one.
+		for _, sp := range node.Specs {
+			spec := sp.(*parser.ValueSpec)
+			repeats := len(spec.Values) < len(spec.Idents)
+			for _, v := range spec.Values {
+				repeats = repeats || v == nil
+			}
+			if repeats {
+				c.sharedExpr++
+				defer func() { c.sharedExpr-- }()
+				break
+			}
+		}
 	}
 
 	for _, sp := range node.Specs {
